@@ -3838,7 +3838,7 @@ class ControlConnection(object):
 
         if not self._schema_meta_enabled and not force:
             log.debug("[control connection] Skipping schema refresh because schema metadata is disabled")
-            return False
+            return bool(agreed)
 
         if not agreed:
             log.debug("Skipping schema refresh due to lack of schema agreement")
